@@ -206,6 +206,21 @@ def prepare_group(args):
         return out
     for ob in obs:
         try:
+            if ob.kind == 'D':
+                dd = ob.dfcc
+                ctext, info = ll2c.emit_closure(mod, [dd['target']], srcroot=REPO.rstrip('/') + '/', contracts=dd['contracts'])
+                if info['global_stores']:
+                    out[ob.id] = ('infra', 'frame: closure stores to globals %r' % (info['global_stores'][:3],)); continue
+                missing = [g for g in dd.get('replace', []) if g not in info['functions']]
+                if missing:
+                    out[ob.id] = ('infra', 'callee to be replaced by its contract is not called any more: %r' % missing); continue
+                d = os.path.join(workdir, san(ob.id)); os.makedirs(d, exist_ok=True)
+                open(os.path.join(d, 'closure.c'), 'w').write(ctext)
+                dd['target_c'] = 'f_' + ll2c.san(dd['target'])
+                dd['replace_c'] = ['f_' + ll2c.san(g) for g in dd.get('replace', [])]
+                out[ob.id] = ('ok', {'dir': d, 'functions': info['functions'], 'stubs': info['stubs'], 'libm_models': info['libm_models'],
+                                     'n_ub_asserts': len(info['assert_sites']), 'abstracted': [], 'dfcc': dd})
+                continue
             roots = [w.name for w in ob.wrappers]
             ctext, info = ll2c.emit_closure(mod, roots, srcroot=REPO.rstrip('/') + '/', abstract=ob.abstract)
             if ob.abstract and not info['abstracted']:
@@ -500,6 +515,7 @@ def solve_ob(args):
     try:
         if ob.kind == 'D':
             import dfcc
+            ob.dfcc = info['dfcc']
             return dfcc.solve(ob, info, r)
         res = decide(d, ob)
         r.status = res['status']; r.backend = res['backend']; r.seconds = res['seconds']
